@@ -478,6 +478,7 @@ def splice_equivalent(rel, text):
     except (SyntaxError, OSError):
         return text, []
     from . import normform
+    normform.NO_DIAGNOSTIC_REMOVAL[0] = rel.endswith('pipe_asdf.py')
     cf, rf = _functions(cur), _functions(ref)
     co, ro, cmeth, rmeth = one_sided(cur, ref)
     touched = _module_constants(cur, ref)
